@@ -264,7 +264,7 @@ def extent(v, f):
 def gen_cases(r, tier, widen):
     """-> list of dict(kind, pts, faces (polygonal), outward (same faces, outward), ratio, l_min, size, tri (0/1), ops)"""
     ratios_q = [0.5, 0.35, 0.25, 0.2, 0.15, 0.12, 0.1, 0.1, 0.08, 0.15, 0.2, 0.3, 0.06, 0.18, 0.13, 0.09, 0.05, 0.16, 0.11, 0.4]
-    n = 20 if tier == "quick" else 90
+    n = 20 if tier == "quick" else 250
     if widen:
         n = max(n, 30)
     cases = []
@@ -592,8 +592,10 @@ def run(ctx):
                     V.fail_tie("correspondence", "retry loop: the real loop behaved as '%s' on %s, the model says '%s'" % (want, nm, ans.get(q)))
 
     # ---------------------------------------------------------------- F. Poisson sampling: exact spacing; dart throwing model vs code
-    pc = [c for c in cases if c["tri"]]
-    pc = sorted(pc, key=lambda c: -c["ratio"])[: (6 if tier == "quick" else 30)]
+    pc = sorted([c for c in cases if c["tri"]], key=lambda c: -c["ratio"])
+    npc = 6 if tier == "quick" else 40
+    if len(pc) > npc:          # spread over the whole range of l_min / size
+        pc = [pc[(k * (len(pc) - 1)) // (npc - 1)] for k in range(npc)]
     pa = run_both([poly_line("cloud", c["pts"], c["faces"], fhex(c["l_min"]) + " ") for c in pc])
     for i, c in enumerate(pc):
         if i >= len(pa):
